@@ -13,7 +13,9 @@ def bump (st : St) : St := { st with attempts := st.attempts + 1 }
 inductive Steps (cfg : Cfg) : St → List Req → St → List Ev → Prop
   | nil (st : St) : Steps cfg st [] st []
   | cons {st st1 st2 : St} {r : Req} {rs : List Req} {e1 e2 : List Ev} :
-      tooMany cfg st = false → step cfg (bump st) r = .cont st1 e1 → Steps cfg st1 rs st2 e2 →
+      tooMany cfg st = false → step cfg (bump st) r = .cont st1 e1 →
+      r.follow.length ≤ consumedBy (bump st) r →   -- every follow-up packet was read by this request
+      Steps cfg st1 rs st2 e2 →
       Steps cfg st (r :: rs) st2 (e1 ++ e2)
 
 /-- a run that ends in success read a sequence of requests that were all answered with
@@ -46,6 +48,10 @@ theorem loop_ok {cfg : Cfg} {reads : List Read} {st : St} {evs : List Ev} {p : N
         exact ⟨[], r, rest, st, [], e, by simp, Steps.nil st, ht, hs, by simp⟩
       | cont st1 e1 =>
         simp only [hs] at h
+        by_cases hlo : consumedBy { st with attempts := st.attempts + 1 } r < r.follow.length
+        · simp only [hlo, if_true] at h
+          split at h <;> simp at h
+        simp only [hlo, if_false] at h
         cases hl : loop cfg st1 rest with
         | mk e2 f =>
           simp only [hl] at h
@@ -53,7 +59,8 @@ theorem loop_ok {cfg : Cfg} {reads : List Read} {st : St} {evs : List Ev} {p : N
           obtain ⟨h1, h2⟩ := h
           subst h1 h2
           obtain ⟨pre, r', post, st', a1, a2, b1, b2, b3, b4, b5⟩ := ih hl
-          refine ⟨r :: pre, r', post, st', e1 ++ a1, a2, by simp [b1], Steps.cons ht hs b2, b3, b4, by simp [b5]⟩
+          refine ⟨r :: pre, r', post, st', e1 ++ a1, a2, by simp [b1], Steps.cons ht hs (by simpa [bump] using hlo) b2, b3, b4,
+            by simp [b5]⟩
 
 /-! ## the key-cache invariant -/
 
@@ -220,6 +227,12 @@ theorem finish_inv {cfg : Cfg} {st st' : St} {r : Req} {acc : KeyAcc} {evs evs' 
         scanKey_neutral _ _ (by simp [neutral])]
       exact CacheInv_congr rfl rfl hinv
 
+theorem kgEv_neutral {st : St} {r : Req} {x : List Ev} (h : x.all (kgEv st r) = true) : x.all neutral = true := by
+  rw [List.all_eq_true] at h ⊢
+  intro e he
+  have := h e he
+  cases e <;> simp [kgEv, auxEv, neutral] at this ⊢
+
 theorem method_core {cfg : Cfg} {st st' : St} {r : Req} {acc : KeyAcc} {evs : List Ev}
     (hinv : CacheInv cfg st acc)
     (hph : methodPhase cfg st r = .again st' evs ∨ ∃ p e, methodPhase cfg st r = .res st' evs p e) :
@@ -237,15 +250,20 @@ theorem method_core {cfg : Cfg} {st st' : St} {r : Req} {acc : KeyAcc} {evs : Li
       · exact hinv
       · rw [scanKey_neutral _ _ (by simp [neutral])]; exact hinv
     · split at hph
-      · unfold kbdPhase at hph
-        (repeat' split at hph) <;> simp at hph <;> obtain ⟨rfl, rfl⟩ := hph
-        · exact hinv
-        · rw [scanKey_neutral _ _ (by simp [neutral])]; exact hinv
+      · rename_i hm
+        simp at hm
+        obtain ⟨rfl, hx⟩ := kg_result (Or.inl ⟨hm, rfl⟩) hph
+        rw [scanKey_neutral _ _ (kgEv_neutral hx)]; exact hinv
       · split at hph
         · exact (pk_core hinv hph).1
-        · simp at hph
-          obtain ⟨rfl, rfl⟩ := hph
-          exact hinv
+        · split at hph
+          · rename_i hm
+            simp at hm
+            obtain ⟨rfl, hx⟩ := kg_result (Or.inr ⟨hm, rfl⟩) hph
+            rw [scanKey_neutral _ _ (kgEv_neutral hx)]; exact hinv
+          · simp at hph
+            obtain ⟨rfl, rfl⟩ := hph
+            exact hinv
 
 theorem bannerPhase_neutral (cfg : Cfg) (st : St) : (bannerPhase cfg st).2.all neutral = true := by
   unfold bannerPhase
@@ -288,7 +306,7 @@ theorem steps_inv {cfg : Cfg} {st st' : St} {rs : List Req} {acc : KeyAcc} {evs 
     (hinv : CacheInv cfg st acc) (h : Steps cfg st rs st' evs) : CacheInv cfg st' (scanKey acc evs) := by
   induction h generalizing acc with
   | nil st => simpa [scanKey] using hinv
-  | cons ht hs _ ih =>
+  | cons ht hs _ _ ih =>
     rw [scanKey_append]
     exact ih (step_inv hinv hs)
 
